@@ -976,8 +976,46 @@ def check_truthiness(ck, R):
           A.loc(sized[0], sized[0].node) if sized else "")
 
 
+def check_parent_objects_brought_over(ck, R):
+    """The index of a merged partition names the parent's stored objects by their versioned keys and the child is read back
+    from its OWN data source.  `reference(src_data_source, src_key, target_key)` is what the store loop calls for each of
+    them: in a data source that keeps objects in a place of its own (the filesystem) it has to bring over an object that
+    lives in another data source -- read it from `src_data_source` and put it under `target_key` -- and may skip that only
+    when the source is this very data source or the object is already there (D45)."""
+    ck.rule(R, "a data source asked to reference an object of another data source brings it over", 1)
+    n = 0
+    for cls in ck.repo.all_classes():
+        m = cls.methods.get("reference")
+        if m is None or len(m.params) < 4 or not any(b.split(".")[-1] == "DataSource" for b in cls.base_exprs):
+            continue
+        n += 1
+        fa = FA(ck, m)
+        src, skey = m.params[1], m.params[2]
+        reads = [c for c in fa.calls() if A.call_attr(c) in ("input_versioned", "input_nonversioned") and A.norm(A.call_recv(c)) == src
+                 and c.args and fa.nodes(c) and fa.xnorm(c.args[0], fa.nodes(c)[0]) == skey]
+        ok = False
+        why = "does nothing with the object"
+        for c in reads:
+            conds = fa.conditions(fa.stmt_of(c))
+            if conds is None:
+                continue
+            def excused(txt, pol):
+                same = ("%s is self" % src) in txt or ("self is %s" % src) in txt
+                there = "exists" in txt
+                return (same or there) and not pol
+            if conds and all(all(excused(t, p_) for (t, p_) in conj) for conj in conds):
+                ok = True
+            else:
+                why = "reads the object only under %s" % sorted({("" if p_ else "not ") + t for conj in conds for (t, p_) in conj if not excused(t, p_)})[:3]
+        ck.ob(R, fa.key(None, "brings-over"), ok, "an object of another data source is read from it and stored here" if ok else
+              "%s.reference %s: a partition merged onto a parent produced in another store is written with an index that points at objects its own "
+              "store does not have; read back, it lists the parent-only keys and fails to load them" % (cls.name, why), fa.where())
+    ck.need(n >= 1, "no DataSource implementation with a reference() method found")
+
+
 def check(ck):
     from .memo import check_new_memo_tables
+    ck.run(check_parent_objects_brought_over, ck, "C17.R8")
     ck.run(check_new_memo_tables, ck, "C17.M1", ('partition', 'storage_base', 'storage_filesystem'))
     from .c07 import check_who_may_delete
     ck.rule("C17.R7", "partitions never delete stored objects (who may delete, shared with C07.R4)", 3)
